@@ -339,6 +339,25 @@ fn check_one<CS: BbsCiphersuite>(rep: &Report, ck: &str, c: &Case) -> CheckResul
             Ok(())
         };
         canon(honest, "honest")?;
+        // the same octets handed over as a slice at every alignment: behind 1..=8 octets of a frame (a tag or a
+        // length prefix), as a network buffer would; a decoder that reads words instead of octets must not care
+        for off in 1..=8usize {
+            let frame = [&vec![0xA5u8; off][..], &honest[..], &[0x5Au8; 3][..]].concat();
+            let view = &frame[off..off + honest.len()];
+            rep.eval(ck, 1);
+            if decode_encode::<CS>(codec, view).as_deref() != Some(&honest[..]) {
+                return rep.fail(ck, &format!("alignment-dependent:{:?}", codec), format!("{:?}: the honest encoding is decoded differently (or refused) when the slice starts {} octets into a buffer", codec, off), cj(json!({"codec": codec, "octets": hex::encode(honest), "offset": off})));
+            }
+        }
+        // the text forms of the encoding (what encode() / Display / a JSON document carry) are not the encoding
+        for (class, text) in [("hex-text-lower", hex::encode(honest)), ("hex-text-upper", hex::encode_upper(honest)), ("0x-hex-text", format!("0x{}", hex::encode(honest)))] {
+            // (a ZKPoK is a bare run of scalars of any count: ASCII text of the right length is one, and canonical)
+            if codec == Codec::ZkPok {
+                canon(text.as_bytes(), class)?;
+            } else {
+                forbidden(text.as_bytes(), class)?;
+            }
+        }
         // bit flips
         let nb = honest.len() * 8;
         for bit in 0..nb {
@@ -746,7 +765,7 @@ pub fn run(ctx: &Ctx, rep: &Report) -> Meta {
                relation (1) decode(encode(x)) = x for octets, public-key coordinates and serde_json (read back with from_str, from_value, from_reader and from_slice), also in volume (9600 quick / 120000 thorough signatures under fresh random keys, a quarter of them with proof, commitment, blind factor and blind signature); relation (2) on honest encodings, single-bit flips (all bits in exhaustive-bit-flips, 48 sampled otherwise), \
                whole-scalar extensions / truncations, other valid points, r-1, 0: decode(b) = Ok(x) implies encode(x) = b; relation (3) forbidden classes are rejected: trailing bytes 1..=64, every truncation, the uncompressed form of a point spliced in place of the compressed one, several points of cofactor order that cancel in a sum (Abar = Q, Bbar = -Q and the like), \
                scalar in {r, r+1, r+2^k for every k, 2^256-1, 2^256-1-2^k, the honest value + r}, points with x >= p, off-curve, on-curve-but-outside-the-subgroup (found by search and classified with from_compressed_unchecked + is_torsion_free), bad flag combinations, \
-               many-scalars: an honest proof / commitment / ZKPoK with k canonical scalars spliced in before the challenge for k in {255, 256, 257, 4096, 65534..65537, 70001} (thorough up to 262145): refused or reproduced octet for octet, refused when the last spliced scalar is 0xff..ff; identity as public key (compressed and coordinates), as signature point, as proof point, e = 0; primed-sequences (one thread, nothing else running): the honest key decoded by from_bytes / from_coordinates / not at all, then coordinates with single bits of y or x flipped, halves of y replaced by random octets, p or ff..ff, the negated point, x and y exchanged - accepted coordinates must re-encode to themselves - and every (160 sampled for long encodings) single-bit flip decoded right after its honest encoding; non-trivial = (codec, object) with its derived strings; evaluations = decode/encode judgements"
+               every honest encoding decoded from a slice that starts 1..=8 octets into a buffer; the hex text of an encoding (lower / upper case, 0x-prefixed) offered as octets is refused; many-scalars: an honest proof / commitment / ZKPoK with k canonical scalars spliced in before the challenge for k in {255, 256, 257, 4096, 65534..65537, 70001} (thorough up to 262145): refused or reproduced octet for octet, refused when the last spliced scalar is 0xff..ff; identity as public key (compressed and coordinates), as signature point, as proof point, e = 0; primed-sequences (one thread, nothing else running): the honest key decoded by from_bytes / from_coordinates / not at all, then coordinates with single bits of y or x flipped, halves of y replaced by random octets, p or ff..ff, the negated point, x and y exchanged - accepted coordinates must re-encode to themselves - and every (160 sampled for long encodings) single-bit flip decoded right after its honest encoding; non-trivial = (codec, object) with its derived strings; evaluations = decode/encode judgements"
             .into(),
         assumptions: vec![
             "JSON is held to relation (1) only (JSON text is not canonical by nature)".into(),
